@@ -35,7 +35,7 @@ Proof.
                (ka0 + na0 <=? kb0) || (kb0 + nb0 <=? ka0) = true -> False).
   { intros ka0 na0 kb0 nb0 -> -> -> -> Q. specialize (A2 _ eq_refl). specialize (A3 _ eq_refl).
     specialize (B2 _ eq_refl). specialize (B3 _ eq_refl). apply orb_prop in Q. destruct Q as [Q|Q]; apply Z.leb_le in Q; lia. }
-  destruct ra as [ra|], rb as [rb|]; try discriminate.
+  destruct ra as [ra|], rb as [rb|]; try congruence.
   - destruct (ra =? rb) eqn:Q.
     + destruct ka, ma, kb, mb; try discriminate. eapply IV; eauto.
     + apply Z.eqb_neq in Q. apply Q. congruence.
